@@ -201,7 +201,8 @@ def power_arrays(P, k0):
     zb = np.asarray(spec.get('zb', pw['zb']), dtype=float)
     ncell = len(zb) - 1
     order = int(spec.get('order', pw.get('order', 0)))
-    rng = np.random.default_rng([int(pw.get('seed', 0)), k0, 7])
+    rng = np.random.default_rng([int(pw.get('seed', 0)),
+                                 int(spec.get('seed_k0', k0)), 7])
     frac = spec.get('frac', [0.9, 0.06, 0.04])
     comps = spec.get('comps', [1, 2, 3])
     # axial weights per cell (relative linear power level)
